@@ -6,6 +6,7 @@ R: the universe's OP_RETURN scripts and every other script type are mixed into r
    multi-byte UTF-8, invalid UTF-8, empty; every push form that can carry the length) and run through `opreturn` on
    bitcoin/testnet3 and fork coins, also with ranges; stdout minus log lines compared byte for byte
 """
+import os
 import random
 
 from lib import btc, chains, datadir, ref, run, scriptrep
@@ -100,6 +101,19 @@ def main(ck, tier, w):
         if probs:
             ck.violation('%s: %s' % (j[1], '; '.join(probs)), {'coin': j[1], 'range': rg, 'scripts': [[x.hex()[:300] for x in b] for b in spks],
                                                                'observed': r.brief(), 'tags': []})
+    # lines of the blocks processed before a failure are printed too (every processed output prints its line)
+    for coin in ('bitcoin', 'litecoin'):
+        blocks = chains.std_chain(6, coin)
+        d = datadir.simple_dir(w.sub('dd'), blocks, coin).write()
+        p = os.path.join(d, 'blk00000.dat')
+        os.truncate(p, os.path.getsize(p) - 40)
+        r = run.run_parser(d, 'opreturn', coin=coin)
+        exp = b''.join(ref.opreturn_expected([(h, blocks[h]) for h in range(5)], coin))
+        ck.evals()
+        ck.distinct(('aborted-run', coin))
+        if r.rc == 0 or chains.strip_log(r.out) != exp:
+            ck.violation('%s: run aborted at height 5 (exit %d) printed %r instead of the lines of heights 0..4' % (coin, r.rc, chains.strip_log(r.out)[:200]),
+                         {'coin': coin, 'observed': r.brief(), 'tags': []})
     ck.assumptions += ['OP_RETURN followed by anything else than exactly one push is outside the statement: such lines are not judged',
                        'log lines share stdout with the payload lines and are removed by their exact `[HH:MM:SS] LEVEL - target: ` shape; '
                        'generated payloads never imitate it']
